@@ -150,7 +150,7 @@ def run_engines(seed):
             if l.startswith('SUMMARY'): ok += int(l.split('ok=')[1].split()[0])
     return fails, ok
 
-def run_driver(exe, lines, env=None, chunk=400, timeout=1800, cpu_limit=600, mem_limit=8 * 2 ** 30):
+def run_driver(exe, lines, env=None, chunk=400, timeout=1800, cpu_limit=600, mem_limit=8 * 2 ** 30, big_stack=False):
     """feed case lines, return output lines (one per case); parallel over chunks"""
     import concurrent.futures
     chunks = [lines[i:i + chunk] for i in range(0, len(lines), chunk)]
@@ -161,6 +161,8 @@ def run_driver(exe, lines, env=None, chunk=400, timeout=1800, cpu_limit=600, mem
         resource.setrlimit(resource.RLIMIT_CPU, (cpu_limit, cpu_limit + 5))
         try:
             # the extracted model recurses over lists (tens of thousands of bins in the thorough tier): give it the stack
+            # (not the C++ driver: the stack limit is also the default stack size of every thread it starts)
+            if not big_stack: raise ValueError
             soft, hard = resource.getrlimit(resource.RLIMIT_STACK)
             want = 4 * 2 ** 30 if hard == resource.RLIM_INFINITY else hard
             resource.setrlimit(resource.RLIMIT_STACK, (want, hard))
@@ -204,7 +206,7 @@ def run_pair(cases, cxx_exe, ml_exe, env=None):
         parsed.append(po)
         mlines.append(dump([i, t, cmd, args, libm]))
     # the extracted model is the slow side (about 70 k floating-point operations per second): spread the cases over all cores
-    mout = run_driver(ml_exe, mlines, env=e, chunk=max(1, min(100, (len(mlines) + 47) // 48)), cpu_limit=1500)
+    mout = run_driver(ml_exe, mlines, env=e, chunk=max(1, min(100, (len(mlines) + 47) // 48)), cpu_limit=1500, big_stack=True)
     global last_model_io
     last_model_io = (mlines, mout)
     out = []
